@@ -43,7 +43,7 @@ class Directive:
 
 
 SUB = ("@ret", "@requires", "@ensures", "@closure", "@loop", "@prefix", "@insert_before", "@recommends",
-       "@decreases", "@nested", "@attr", "@closure_types", "@generics", "@replace", "@loop_begin", "@loop_end", "@adapter", "@inline_snapshot_update", "@rename_param", "@after_loop")
+       "@decreases", "@nested", "@attr", "@closure_types", "@generics", "@replace", "@loop_begin", "@loop_end", "@adapter", "@inline_snapshot_update", "@rename_param", "@after_loop", "@split_before", "@eta")
 
 
 def parse_spec(path: str):
@@ -122,6 +122,14 @@ def parse_spec(path: str):
                 if kind == "insert_before":
                     mm = re.match(r'@insert_before\s+"(.*)"\s+(\d+)\s*$', s)
                     if not mm: raise SystemExit(f"{path}:{ln}: bad @insert_before")
+                    args = [mm.group(1), mm.group(2)]
+                if kind == "eta":
+                    mm = re.match(r'@eta\s+"(.*)"\s+(\d+)\s*$', s)
+                    if not mm: raise SystemExit(f"{path}:{ln}: bad @eta")
+                    args = [mm.group(1), mm.group(2)]
+                if kind == "split_before":
+                    mm = re.match(r'@split_before\s+"(.*)"\s+(\d+)\s*$', s)
+                    if not mm: raise SystemExit(f"{path}:{ln}: bad @split_before")
                     args = [mm.group(1), mm.group(2)]
                 if kind == "replace":
                     mm = re.match(r'@replace\s+(E\d+)\s+"(.*)"\s+(\d+)\s*$', s)
@@ -864,6 +872,31 @@ class Gen:
                 if tail:
                     sp.replace(st[close + 1].start, st[close + len(tail)].end, REP("E11", src[st[close + 1].start:st[close + len(tail)].end], ""))
                 self.rewrites.append({"fn": fid, "rule": "E11", "adapter": kind_, "at": S.line_of(st[i].start)})
+            if c.kind == "eta":
+                # E12 (structured): the single argument of the anchored call is a function path P; it becomes the closure
+                # |__c: T| -> (res: R) ensures call_ensures(P, (__c,), res) { P(__c) }  -- whatever path stands there is kept
+                anchor, nth = c.args[0], int(c.args[1])
+                atoks = [t.text for t in rs.sig(rs.tokenize(anchor))]
+                hits = [i for i in range(fp.body_open + 1, fp.body_close - len(atoks)) if [t.text for t in st[i:i + len(atoks)]] == atoks and st[i + len(atoks)].text == "("]
+                if nth < 1 or nth > len(hits):
+                    raise AnchorLost(f"{fid}: @eta anchor {anchor!r} #{nth}: {len(hits)} hits")
+                o = hits[nth - 1] + len(atoks)
+                depth = 0; e = o
+                while True:
+                    if st[e].text in ("(", "[", "{"): depth += 1
+                    elif st[e].text in (")", "]", "}"):
+                        depth -= 1
+                        if depth == 0: break
+                    e += 1
+                arg = st[o + 1:e]
+                if not arg or not all(re.match(r"^[A-Za-z_]\w*$", t.text) or t.text in ("::", "<", ">", ",", "&") for t in arg):
+                    raise AnchorLost(f"{fid}: @eta argument of {anchor!r} is not a function path")
+                ptxt = src[arg[0].start:arg[-1].end]
+                mm = re.match(r"\s*(\w+)\s*:\s*(.*?)\s*->\s*(.*?)\s*$", c.text.strip(), re.S)
+                if not mm: raise SystemExit(f"{self.spec_path}:{c.line}: @eta needs `name: T -> R`")
+                nm, ty, rt = mm.groups()
+                sp.replace(arg[0].start, arg[-1].end, REP("E12", ptxt, f"|{nm}: {ty}| -> (res: {rt}) ensures call_ensures({ptxt}, ({nm},), res) {{ {ptxt}({nm}) }}"))
+                self.rewrites.append({"fn": fid, "rule": "E12", "from": ptxt, "eta": True})
             if c.kind == "replace":
                 # listed call-syntax rewrites (E8 checked arithmetic, E9 dependency inlining, E11 std adapter -> shim fn, E12 eta)
                 rule, anchor, nth = c.args[0], c.args[1], int(c.args[2])
@@ -898,6 +931,49 @@ class Gen:
                     info.setdefault("skipped_hints", []).append(f"{anchor} #{nth}")
                     continue
                 sp.insert(st[hits[nth - 1]].start, ADD("E10", c.text.rstrip() + "\n"))
+        # E19: a `let PAT = a.m1(..).m2(..)...;` method chain is split into consecutive lets at listed `.method` anchors, so that a
+        # proof hint can stand between two calls of the chain (evaluation order and every call are unchanged)
+        splits = {}
+        for c in cls:
+            if c.kind != "split_before": continue
+            anchor, nth = c.args[0], int(c.args[1])
+            atoks = [t.text for t in rs.sig(rs.tokenize(anchor))]
+            hits = [i for i in range(fp.body_open + 1, fp.body_close - len(atoks) + 1) if [t.text for t in st[i:i + len(atoks)]] == atoks]
+            if nth < 1 or nth > len(hits) or st[hits[nth - 1]].text != ".":
+                self.skipped_hints.append(f"{fid}: split before {anchor!r} #{nth}")
+                info.setdefault("skipped_hints", []).append(f"split {anchor} #{nth}")
+                continue
+            h = hits[nth - 1]
+            # enclosing `let` at the same bracket depth
+            depth = 0; j = h - 1; let_i = None
+            while j > fp.body_open:
+                t = st[j].text
+                if t in (")", "]", "}"): depth += 1
+                elif t in ("(", "[", "{"):
+                    if depth == 0: break
+                    depth -= 1
+                elif t == ";" and depth == 0: break
+                elif t == "let" and depth == 0: let_i = j; break
+                j -= 1
+            if let_i is None:
+                self.skipped_hints.append(f"{fid}: split before {anchor!r} #{nth} (no enclosing let)")
+                info.setdefault("skipped_hints", []).append(f"split {anchor} #{nth}")
+                continue
+            splits.setdefault(let_i, []).append((h, c))
+        for let_i, hs in splits.items():
+            hs.sort(key=lambda x: x[0])
+            depth = 0; e = let_i + 1
+            while not (st[e].text == "=" and depth == 0):
+                if st[e].text in ("(", "[", "{", "<"): depth += 1
+                elif st[e].text in (")", "]", "}", ">"): depth -= 1
+                e += 1
+            let_txt = src[st[let_i].start:st[e].end]
+            sp.replace(st[let_i].start, st[e].end, REP("E19", let_txt, "let __s1 ="))
+            for k, (h, c) in enumerate(hs, start=1):
+                last = k == len(hs)
+                nxt = (let_txt if last else f"let __s{k + 1} =") + f" __s{k}"
+                sp.insert(st[h].start, ADD("E19", ";\n" + c.text.rstrip() + "\n    " + nxt))
+            self.rewrites.append({"fn": fid, "rule": "E19", "at": S.line_of(st[let_i].start), "splits": len(hs)})
         assumed = d.opts.get("assume") is not None
         info["assumed"] = assumed
         if assumed:
